@@ -680,7 +680,7 @@ fn stop_case(ctx: &mut Ctx, idx: u64, via_ffi: bool) {
 }
 
 pub fn run(ctx: &mut Ctx) {
-    let n_cases = ctx.pick(4000, 500000);
+    let n_cases = ctx.pick(16000, 500000);
     for idx in 0..n_cases {
         if !ctx.mine(idx) {
             continue;
